@@ -75,6 +75,7 @@ func c09Tick(e *Env) {
 		return
 	}
 	isNow := func(v ssa.Value) bool { return ir.Resolve(v) == nowP }
+	isNowD := func(v ssa.Value) bool { return ir.Resolve(v) == nowP || ir.Deep(v) == ir.Deep(nowP) } // also through a predicate's parameter
 	// (a) Read(now + c)
 	n := 0
 	for _, ci := range ir.CallsIn(run, isRead) {
@@ -116,23 +117,34 @@ func c09Tick(e *Env) {
 			invoke = is.call
 			site := is.site
 			lits := e.DCS(site)
-			ok := false
-			for _, l := range lits {
-				if l.Kind == "val" && !l.Pol {
-					if c, isC := ir.Resolve(l.V).(*ssa.Call); isC && ir.IsCallTo(&c.Call, "(time.Time).After") && e.IsFieldRead(c.Call.Args[0], nil, "Next") && isNow(c.Call.Args[1]) {
-						ok = true
+			allFound := true
+			ok, nWays := true, 0
+			e.ways(lits, func(lits []ir.NLit) {
+				nWays++
+				ok := false
+				_ = ok
+				found := false
+				for _, l := range lits {
+					if l.Kind == "val" && !l.Pol {
+						if c, isC := ir.Resolve(l.V).(*ssa.Call); isC && ir.IsCallTo(&c.Call, "(time.Time).After") && e.IsFieldRead(c.Call.Args[0], nil, "Next") && isNowD(c.Call.Args[1]) {
+							found = true
+						}
+						// the same test written from the tick's side: !tick.Before(entry.Next)
+						if c, isC := ir.Resolve(l.V).(*ssa.Call); isC && ir.IsCallTo(&c.Call, "(time.Time).Before") && isNowD(c.Call.Args[0]) && e.IsFieldRead(c.Call.Args[1], nil, "Next") {
+							found = true
+						}
 					}
-					// the same test written from the tick's side: !tick.Before(entry.Next)
-					if c, isC := ir.Resolve(l.V).(*ssa.Call); isC && ir.IsCallTo(&c.Call, "(time.Time).Before") && isNow(c.Call.Args[0]) && e.IsFieldRead(c.Call.Args[1], nil, "Next") {
-						ok = true
+					if l.Kind == "val" && l.Pol {
+						if c, isC := ir.Resolve(l.V).(*ssa.Call); isC && ir.IsCallTo(&c.Call, "(time.Time).Before") && isNowD(c.Call.Args[0]) && e.IsFieldRead(c.Call.Args[1], nil, "Next") {
+							found = false // strictly before would skip the tick's own minute
+						}
 					}
 				}
-				if l.Kind == "val" && l.Pol {
-					if c, isC := ir.Resolve(l.V).(*ssa.Call); isC && ir.IsCallTo(&c.Call, "(time.Time).Before") && isNow(c.Call.Args[0]) && e.IsFieldRead(c.Call.Args[1], nil, "Next") {
-						ok = false // strictly before would skip the tick's own minute
-					}
+				if !found {
+					allFound = false
 				}
-			}
+			})
+			ok = allFound && nWays > 0
 			r.Check(ok, "run: an entry is invoked only when !entry.Next.After(tick)", e.InstrPos(site),
 				"entries are invoked although their next time is after the tick (future minutes run early), or the guard uses another comparison", e.FactsStr("dominating conditions: ", lits))
 			// break on the first future entry needs the entries sorted by Next
@@ -155,6 +167,35 @@ func c09Tick(e *Env) {
 					var sorts []ssa.CallInstruction
 					for _, h := range e.withPkgHelpers(run) {
 						sorts = append(sorts, ir.CallsIn(h, func(c *ssa.CallCommon) bool { return ir.IsCallTo(c, "sort.SliceStable", "sort.Slice") })...)
+					}
+					for _, h := range e.withPkgHelpers(run) {
+						for _, sc := range ir.CallsIn(h, func(c *ssa.CallCommon) bool {
+							n := ir.CalleeName(c)
+							return strings.HasPrefix(n, "slices.SortFunc") || strings.HasPrefix(n, "slices.SortStableFunc")
+						}) {
+							var cmp *ssa.Function
+							switch x := ir.Resolve(sc.Common().Args[1]).(type) {
+							case *ssa.MakeClosure:
+								cmp, _ = x.Fn.(*ssa.Function)
+							case *ssa.Function:
+								cmp = x
+							}
+							if cmp == nil || len(cmp.Params) != 2 {
+								continue
+							}
+							// ascending by Next: cmp(a, b) = a.Next.Compare(b.Next)
+							for _, b := range cmp.Blocks {
+								if rt, isR := b.Instrs[len(b.Instrs)-1].(*ssa.Return); isR && len(rt.Results) == 1 {
+									if c, isC := ir.Resolve(rt.Results[0]).(*ssa.Call); isC && ir.IsCallTo(&c.Call, "(time.Time).Compare") {
+										p0, ok0 := e.C.PathOf(c.Call.Args[0])
+										p1, ok1 := e.C.PathOf(c.Call.Args[1])
+										if ok0 && ok1 && p0.Suffix("Next") && p1.Suffix("Next") && ir.Resolve(p0.Root) == ssa.Value(cmp.Params[0]) && ir.Resolve(p1.Root) == ssa.Value(cmp.Params[1]) {
+											sorted = true
+										}
+									}
+								}
+							}
+						}
 					}
 					for _, sc := range sorts {
 						if mc, isMC := sc.Common().Args[1].(*ssa.MakeClosure); isMC {
@@ -330,21 +371,61 @@ func c09EntryTable(e *Env) {
 	}
 	want := map[string]string{"Schedule": "entryTypeStart", "StopSchedule": "entryTypeStop", "RestartSchedule": "entryTypeRestart"}
 	seen := map[string]bool{}
-	for _, ci := range ir.CallsIn(rd, func(c *ssa.CallCommon) bool { return len(c.Args) >= 3 }) {
+	schedOf := func(v ssa.Value) string {
+		if p, ok := e.C.PathOf(v); ok && len(p.Fields) >= 1 && want[p.Fields[len(p.Fields)-1]] != "" {
+			return p.Fields[len(p.Fields)-1]
+		}
+		return ""
+	}
+	type pair struct{ sched, typ string }
+	var rdCalls []ssa.CallInstruction
+	for _, g := range e.withPkgHelpers(rd) {
+		rdCalls = append(rdCalls, ir.CallsIn(g, func(c *ssa.CallCommon) bool { return len(c.Args) >= 3 })...)
+	}
+	for _, ci := range rdCalls {
+		var pairs []pair
 		var sched, typ string
 		for _, a := range ci.Common().Args {
-			if p, ok := e.C.PathOf(a); ok && len(p.Fields) == 1 && want[p.Fields[0]] != "" {
-				sched = p.Fields[0]
+			if sn := schedOf(a); sn != "" && len(mustPath(e, a).Fields) == 1 {
+				sched = sn
 			}
 			if k, ok := ir.ConstInt(a); ok && strings.HasSuffix(ir.NamedType(a.Type()), ".entryType") {
 				typ = et[k]
 			}
+			// the kind taken from a row of a literal table (`for _, row := range []struct{schedules; typ}{…}`):
+			// one pair per row, the schedule list being the row's other column
+			if strings.HasSuffix(ir.NamedType(a.Type()), ".entryType") {
+				if rows, fld, _, okR := ir.LiteralRows(ir.Resolve(a)); okR {
+					for _, row := range rows {
+						p := pair{}
+						if k, isC := ir.ConstInt(row[fld]); isC {
+							p.typ = et[k]
+						}
+						for f2, v2 := range row {
+							if f2 != fld {
+								if sn := schedOf(v2); sn != "" {
+									p.sched = sn
+								}
+							}
+						}
+						if p.sched != "" {
+							pairs = append(pairs, p)
+						}
+					}
+				}
+			}
 		}
-		if sched == "" {
+		if sched != "" {
+			pairs = append(pairs, pair{sched, typ})
+		}
+		if len(pairs) == 0 {
 			continue
 		}
-		seen[sched] = true
-		r.Check(typ == want[sched], "Read: entries from "+sched+" carry "+want[sched], e.InstrPos(ci), "entries built from "+sched+" carry "+typ)
+		for _, p := range pairs {
+			seen[p.sched] = true
+			r.Check(p.typ == want[p.sched], "Read: entries from "+p.sched+" carry "+want[p.sched], e.InstrPos(ci), "entries built from "+p.sched+" carry "+p.typ)
+		}
+		sched = pairs[0].sched
 		// not for suspended DAGs
 		okS := HasVal(e.DCS(ci), func(v ssa.Value) bool {
 			c, ok := ir.Resolve(v).(*ssa.Call)
@@ -361,6 +442,29 @@ func c09EntryTable(e *Env) {
 	// Invoke: type → method
 	wantM := map[string]string{"entryTypeStart": "Start", "entryTypeStop": "Stop", "entryTypeRestart": "Restart"}
 	isType := func(v ssa.Value) bool { return e.IsFieldRead(v, nil, "EntryType") }
+	// the dispatch written as a table indexed by the entry type (`ops[e.EntryType].invoke(e.Job)`)
+	for _, b := range inv.Blocks {
+		for _, in := range b.Instrs {
+			c, ok := in.(*ssa.Call)
+			if !ok || c.Call.IsInvoke() || c.Call.StaticCallee() != nil {
+				continue
+			}
+			idx, fld, ents, okT := e.arrayTableRead(c.Call.Value)
+			if !okT || !isType(idx) {
+				continue
+			}
+			for k, row := range ents {
+				m := methodOfFuncValue(row[fld])
+				r.Check(et[k] != "" && wantM[et[k]] == m, "Invoke: Job."+wantM[et[k]]+" only for "+et[k], e.InstrPos(c),
+					"the operation table maps "+et[k]+" to job method "+m)
+			}
+			for name := range wantM {
+				if _, has := ents[ConstVal(et, name)]; !has {
+					r.Bad("Invoke: Job."+wantM[name]+" only for "+name, e.InstrPos(c), "the operation table has no entry for "+name)
+				}
+			}
+		}
+	}
 	for _, ci := range ir.CallsIn(inv, func(c *ssa.CallCommon) bool { return c.IsInvoke() && wantM["entryType"+c.Method.Name()] != "" }) {
 		set := ir.Restrict(e.DCS(ci), isType, et)
 		m := ci.Common().Method.Name()
@@ -693,4 +797,9 @@ func (e *Env) daemonJobMethod(name string) *ssa.Function {
 		return nil
 	}
 	return found
+}
+
+func mustPath(e *Env, v ssa.Value) ir.Path {
+	p, _ := e.C.PathOf(v)
+	return p
 }
